@@ -91,12 +91,13 @@ def perms : List Nat → List (List Nat)
 
 /-- RackAffinity for one topic: look for a pair of map iteration orders under which the model reproduces the
 implementation's output for this topic; fall back to the first-appearance order -/
-def rackTopic (ms : List Member) (ps : List Part) (a : Asg) (ids : List Nat) (t : Nat) : Option (List (Nat × List Int)) :=
+def rackTopic (search : Bool) (ms : List Member) (ps : List Part) (a : Asg) (ids : List Nat) (t : Nat) : Option (List (Nat × List Int)) :=
   let sub := appendByTopic t ms
   if sub.isEmpty then some [] else
   let tp := partsOfTopic t ps
   let zones := (tp.map (·.zone)).eraseDups
-  let orders := perms zones
+  -- an output on which the C14 monitor already fails needs no order search (it cannot be a model output: rack_holds)
+  let orders := if search then perms zones else []
   let agrees (es : List (Nat × List Int)) : Bool := ids.all fun id => collect id es == a t id
   let hit := orders.findSome? fun s1 => orders.findSome? fun s2 =>
     match rackAssignTopic sub tp s1 s2 with
@@ -355,7 +356,8 @@ def step (line : String) : String :=
           answer (render (if viaGlue then asgOfTable tb else rrAssign ms got) idsH ts) (ok && (!wf || rrHoldsOn ms ps a ts ids))
         | "rack" =>
           let zs := sortDedup (ms.map (·.zone) ++ ps.map (·.zone))
-          let per := ts.map fun t => (t, rackTopic ms got a ids t)
+          let holds := ok && (!wf || rackHoldsOn ms ps a ts ids zs)
+          let per := ts.map fun t => (t, rackTopic holds ms got a ids t)
           let m : Asg := fun t id => match per.find? (·.1 == t) with
                                      | some (_, some es) => collect id es
                                      | _ => []
@@ -364,7 +366,7 @@ def step (line : String) : String :=
           let model : String :=
             if per.any (·.2.isNone) then "panic"
             else render (if viaGlue then asgOfTable tb else m) idsH ts
-          answer model (ok && (!wf || rackHoldsOn ms ps a ts ids zs))
+          answer model holds
         | _ => "bad-op"
       | _, _, _ => "bad-args"
     | _ => "bad-op"
